@@ -19,6 +19,11 @@
 #include <opm/input/eclipse/Schedule/Action/State.hpp>
 #include <opm/input/eclipse/Schedule/SummaryState.hpp>
 #include <opm/input/eclipse/Schedule/Well/WListManager.hpp>
+#include <opm/input/eclipse/Schedule/Action/Condition.hpp>
+#include <opm/input/eclipse/Schedule/Action/Enums.hpp>
+#include <opm/common/utility/String.hpp>
+#include <opm/io/eclipse/rst/action.hpp>
+#include <opm/output/eclipse/VectorItems/action.hpp>
 
 #include <algorithm>
 #include <cmath>
@@ -528,6 +533,212 @@ static std::string realNumval(const std::string& t) {
     } catch (const std::exception&) { return ans + " err"; }
 }
 
+
+// ---------------------------------------------------------------------------------------------
+// fifth round: what a restart does to a condition (format_double, RstAction::Condition::tokens)
+
+// is format_double defined for x (finite; an integer-valued x must fit an int)
+static bool fmtDefined(double x) {
+    if (!std::isfinite(x)) return false;
+    double ip; if (std::modf(x, &ip) != 0.0) return true;
+    return x >= -2147483648.0 && x < 2147483648.0;
+}
+static std::string realFmtDouble(double x) { return fmtDefined(x) ? vh::hex(format_double(x)) : std::string("none"); }
+
+// constants as they occur in ACTIONX conditions: integers of every size, halves, eighths, decimals with few and
+// many digits, values at the rounding ties of "%f", tiny and huge numbers, non-finite ones
+static double restartConstant(vh::Rng& rng) {
+    switch (rng.range(0, 11)) {
+    case 0: return static_cast<double>(rng.range(-20, 400));
+    case 1: return static_cast<double>(rng.range(-0x7fffffff, 0x7fffffff));
+    case 2: return rng.range(-80000, 80000) * 0.125;
+    case 3: return rng.range(-2000000, 2000000) * 1e-3;
+    case 4: return (rng.range(-4000000, 4000000) + 0.5) * 1e-6 * (rng.coin() ? 1.0 : 0.1);       // near a tie of the sixth decimal
+    case 5: return std::ldexp(static_cast<double>(rng.range(1, 0x7fffffff)), rng.range(-80, 40)) * (rng.coin() ? 1 : -1);
+    case 6: return rng.pick(std::vector<double>{ 0.0, -0.0, 1e-7, 4.9e-324, 5e-7, 5.000001e-7, -2147483648.0, 2147483647.0, 2147483648.0, -2147483649.0,
+                                                 3e9, 1e20, 1.0e15 + 0.5, 0.1, 0.3, 215.1234567, 1e-6, 0.9999995, 0.99999949, 999999.9999995, -0.5e-6, 1.5e-6, 2.5e-6,
+                                                 std::numeric_limits<double>::infinity(), -std::numeric_limits<double>::infinity(), std::nan(""), 1.7976931348623157e308 });
+    case 7: return static_cast<double>(rng.range(-0x7fffffff, 0x7fffffff)) * 4.0 + rng.range(0, 3);   // around and beyond the int range
+    case 8: return std::strtod(randomLiteral(rng).c_str(), nullptr);
+    case 9: return rng.range(0, 1000) * 0.01;
+    case 10: return rng.range(1, 12) + (rng.coin(1, 4) ? 0.5 : 0.0);
+    default: { uint64_t b = (static_cast<uint64_t>(rng.range(0, 0x7fffffff)) << 33) ^ (static_cast<uint64_t>(rng.range(0, 0x7fffffff)) << 11) ^ static_cast<uint64_t>(rng.range(0, 0x7ff));
+               return vh::f64FromBits(b); }
+    }
+}
+
+struct RstSpec { std::string lhs, lhsWg, rhsQ, rhsWg; bool rhsConst = false; double rhsVal = 0; int cmp = 1; bool lp = false, rp = false; int logic = 0; };
+
+static RstSpec genRst(vh::Rng& rng) {
+    RstSpec s;
+    s.lhs = rng.pick(Strs{ "WOPR", "WWCT", "FOPR", "FWCT", "GOPR", "WUX", "FUX", "GUX" });
+    if (s.lhs[0] == 'W') s.lhsWg = rng.pick(Strs{ "P1", "P2", "OP_1", "P*", "*", "*L1", "'P 1'", "" });
+    if (s.lhs[0] == 'G') s.lhsWg = rng.pick(Strs{ "G1", "G2", "FIELD" });
+    s.cmp = rng.range(1, 6);
+    if (rng.coin(1, 6)) {          // DAY / MNTH / YEAR: rebuilt from the quantity TYPE, constant right-hand side
+        s.lhs = rng.pick(Strs{ "DAY", "MNTH", "YEAR" }); s.lhsWg.clear(); s.rhsConst = true;
+        s.rhsVal = s.lhs == "MNTH" ? rng.range(-1, 14) + (rng.coin(1, 4) ? 0.5 : 0.0) : s.lhs == "DAY" ? rng.range(1, 31) : rng.range(2019, 2026);
+        if (rng.coin(1, 10)) s.rhsVal = restartConstant(rng);
+        if (s.lhs == "MNTH" && !(std::fabs(s.rhsVal) < 1e9)) s.rhsVal = 3;      // the int cast of the month index must be defined
+    }
+    else if (rng.coin(2, 3)) { s.rhsConst = true; s.rhsVal = restartConstant(rng); }
+    else {
+        s.rhsQ = rng.pick(Strs{ "WOPR", "FOPR", "GOPR", "FWCT" });
+        if (s.rhsQ[0] == 'W') s.rhsWg = rng.pick(Strs{ "P1", "P3", "I1" });
+        if (s.rhsQ[0] == 'G') s.rhsWg = rng.pick(Strs{ "G1", "G2" });
+    }
+    int par = rng.range(0, 3); s.lp = par == 1; s.rp = par == 2;
+    s.logic = rng.range(0, 2);
+    return s;
+}
+
+// the arrays of one condition as the restart file holds them -> RstAction::Condition
+static RestartIO::RstAction::Condition rstCondition(const RstSpec& s) {
+    namespace VI = RestartIO::Helpers::VectorItems;
+    std::vector<std::string> zacn(VI::ZACN::ConditionSize, std::string(8, ' '));
+    std::vector<int> iacn(VI::IACN::ConditionSize, 0);
+    std::vector<double> sacn(VI::SACN::ConditionSize, 0.0);
+    zacn[VI::ZACN::LHSQuantity] = s.lhs;
+    if (s.lhs[0] == 'W') zacn[VI::ZACN::LHSWell] = s.lhsWg;
+    if (s.lhs[0] == 'G') zacn[VI::ZACN::LHSGroup] = s.lhsWg;
+    if (!s.rhsConst) {
+        zacn[VI::ZACN::RHSQuantity] = s.rhsQ;
+        if (s.rhsQ[0] == 'W') zacn[VI::ZACN::RHSWell] = s.rhsWg;
+        if (s.rhsQ[0] == 'G') zacn[VI::ZACN::RHSGroup] = s.rhsWg;
+    }
+    iacn[VI::IACN::LHSQuantityType] = s.lhs[0] == 'W' ? VI::IACN::Value::Well : s.lhs[0] == 'G' ? VI::IACN::Value::Group :
+                                      s.lhs[0] == 'D' ? VI::IACN::Value::Day : s.lhs[0] == 'M' ? VI::IACN::Value::Month : s.lhs[0] == 'Y' ? VI::IACN::Value::Year : VI::IACN::Value::Field;
+    iacn[VI::IACN::TerminalLogic] = s.logic;
+    iacn[VI::IACN::Paren] = s.lp ? VI::IACN::Value::Open : s.rp ? VI::IACN::Value::Close : VI::IACN::Value::None;
+    iacn[VI::IACN::Comparator] = s.cmp;
+    sacn[VI::SACN::RHSValue0] = s.rhsVal;
+    return RestartIO::RstAction::Condition(zacn.data(), iacn.data(), sacn.data());
+}
+
+static std::string rstProto(const RstSpec& s) {
+    const bool lw = s.lhs[0] == 'W' || s.lhs[0] == 'G';
+    std::string r = s.rhsConst ? "V:" + vh::hexF64(s.rhsVal)
+                               : "N:" + vh::hex(s.rhsQ) + ":" + ((s.rhsQ[0] == 'W' || s.rhsQ[0] == 'G') ? (s.rhsWg.empty() ? std::string("e") : vh::hex(s.rhsWg)) : std::string("-"));
+    // "-" = no well / group name, "e" = a present but empty one
+    return "action.rsttok " + vh::hex(s.lhs) + " " + (lw ? (s.lhsWg.empty() ? std::string("e") : vh::hex(s.lhsWg)) : std::string("-")) + " " + std::to_string(s.cmp) + " " + r + " " +
+           (s.lp ? "1" : "0") + " " + (s.rp ? "1" : "0") + " " + std::to_string(s.logic);
+}
+
+static std::string realRstTokens(const RstSpec& s) {
+    if (s.rhsConst && !fmtDefined(s.rhsVal)) return "none";
+    Strs toks;
+    try { toks = rstCondition(s).tokens(); } catch (const std::out_of_range&) { return "none"; }      // month index outside 1..12
+    std::string o;
+    for (size_t i = 0; i < toks.size(); ++i) { if (i) o += ","; o += toks[i].empty() ? std::string("-") : vh::hex(toks[i]); }
+    return o;
+}
+
+// class and value bits of format_double(x) read again by the real parser
+static std::string realFmtRt(double x) {
+    if (!fmtDefined(x)) return "none";
+    const std::string a = realNumval(format_double(x));
+    return a.substr(0, 6) == "number" ? a : std::string("notnumber");
+}
+
+
+// the number grammar of ACTIONX tokens, written down independently of the code (and of the Lean model's staged parser):
+//   token := "" | ws* [+-] body      body := dec | hex | inf | infinity | nan | nan( [A-Za-z0-9_]* )      (after lower-casing)
+//   dec := (d+ | d+ . d* | . d+) [ e [+-] d+ ]          hex := 0x (h+ | h+ . h* | . h+) [ p [+-] d+ ]
+static bool ownNumberGrammar(const std::string& tok) {
+    std::string s; for (char c : tok) s += (c >= 'A' && c <= 'Z') ? static_cast<char>(c + 32) : c;
+    if (s.empty()) return true;
+    size_t i = 0;
+    while (i < s.size() && (s[i] == ' ' || (s[i] >= '\t' && s[i] <= '\r'))) ++i;
+    if (i < s.size() && (s[i] == '+' || s[i] == '-')) ++i;
+    const std::string b = s.substr(i);
+    if (b == "inf" || b == "infinity" || b == "nan") return true;
+    if (b.size() >= 5 && b.substr(0, 4) == "nan(" && b.back() == ')') {
+        for (size_t k = 4; k + 1 < b.size(); ++k) { const char c = b[k]; if (!((c >= '0' && c <= '9') || (c >= 'a' && c <= 'z') || c == '_')) return false; }
+        return true;
+    }
+    auto isd = [](char c) { return c >= '0' && c <= '9'; };
+    auto ish = [&](char c) { return isd(c) || (c >= 'a' && c <= 'f'); };
+    auto mantExp = [&](const std::string& t, bool hexa, char mark) {
+        size_t k = 0, nd = 0;
+        auto dig = [&](char c) { return hexa ? ish(c) : isd(c); };
+        while (k < t.size() && dig(t[k])) { ++k; ++nd; }
+        if (k < t.size() && t[k] == '.') { ++k; while (k < t.size() && dig(t[k])) { ++k; ++nd; } }
+        if (nd == 0) return false;
+        if (k == t.size()) return true;
+        if (t[k] != mark) return false;
+        ++k;
+        if (k < t.size() && (t[k] == '+' || t[k] == '-')) ++k;
+        size_t ne = 0; while (k < t.size() && isd(t[k])) { ++k; ++ne; }
+        return ne > 0 && k == t.size();
+    };
+    if (b.size() >= 2 && b[0] == '0' && b[1] == 'x') return mantExp(b.substr(2), true, 'p');
+    return mantExp(b, false, 'e');
+}
+
+
+// a whole restart action: the conditions one after the other, read back through ActionX(RstAction) (tokens(),
+// dequote, Action::Parser) and evaluated
+static std::string realRstEval(const std::vector<RstSpec>& cs, const Action::Context& ctx) {
+    for (auto& c : cs) if (c.rhsConst && !fmtDefined(c.rhsVal)) return "none";
+    try {
+        std::vector<RestartIO::RstAction::Condition> conds;
+        try { for (auto& c : cs) conds.push_back(rstCondition(c)); } catch (const std::out_of_range&) { return "none"; }
+        RestartIO::RstAction ra("ACT", 10, 0, 0.0, 0, 0, conds);
+        Action::ActionX ax(ra);
+        try { return showResult(ax.eval(ctx)); } catch (const std::exception&) { return "err"; }
+    } catch (const std::exception&) { return "noparse"; }
+}
+
+static std::string rstEvalProto(const std::vector<RstSpec>& cs) {
+    auto wg = [](const std::string& q, const std::string& w) { return (q[0] == 'W' || q[0] == 'G') ? (w.empty() ? std::string("e") : vh::hex(w)) : std::string("-"); };
+    std::string o;
+    for (auto& c : cs) {
+        int code = 0; try { code = static_cast<int>(Action::Parser::get_func(c.lhs)); } catch (...) {}
+        o += " C;" + vh::hex(c.lhs) + ";" + std::to_string(code) + ";" + wg(c.lhs, c.lhsWg) + ";" + std::to_string(c.cmp) + ";" +
+             (c.rhsConst ? "V:" + vh::hexF64(c.rhsVal) : "N:" + vh::hex(c.rhsQ) + ":" + wg(c.rhsQ, c.rhsWg)) + ";" +
+             (c.lp ? "1" : "0") + ";" + (c.rp ? "1" : "0") + ";" + std::to_string(c.logic);
+    }
+    return o;
+}
+
+// a condition list over the quantities of the world: 1..4 comparisons joined by AND / OR, at most one parenthesised group
+// (all the per-comparison storage can express); `exact` = only constants that survive format_double
+static std::vector<RstSpec> genRstList(vh::Rng& rng, bool exact) {
+    std::vector<RstSpec> cs;
+    const int n = rng.range(1, 4);
+    for (int i = 0; i < n; ++i) {
+        RstSpec s;
+        s.lhs = rng.pick(Strs{ "FOPR", "FWCT", "FUX", "WOPR", "WWCT", "WUX", "GOPR", "GUX" });
+        if (s.lhs[0] == 'W') s.lhsWg = rng.pick(Strs{ "P1", "P2", "P3", "'P1'", "P*", "*", "OP_1", "?P*", "*L1", "'*L2'", "\\*", "P[12]", "I1" });
+        if (s.lhs[0] == 'G') s.lhsWg = rng.pick(Strs{ "G1", "G2", "'G1'" });
+        s.cmp = rng.range(1, 6);
+        if (rng.coin(3, 4)) {
+            s.rhsConst = true;
+            switch (rng.range(0, exact ? 2 : 4)) {
+            case 0: s.rhsVal = rng.range(-1, 3); break;
+            case 1: s.rhsVal = rng.range(0, 8) * 0.25; break;
+            case 2: s.rhsVal = rng.range(-16, 16) * 0.125; break;
+            case 3: s.rhsVal = rng.range(0, 2000) * 1e-3 + (rng.coin() ? 4e-7 : 0.0); break;
+            default: s.rhsVal = restartConstant(rng); break;
+            }
+        } else {
+            s.rhsQ = rng.pick(Strs{ "FOPR", "FWCT", "GOPR", "WOPR" });
+            if (s.rhsQ[0] == 'W') s.rhsWg = rng.pick(Strs{ "P1", "P2", "'P1'" });
+            if (s.rhsQ[0] == 'G') s.rhsWg = rng.pick(Strs{ "G1", "G2" });
+        }
+        if (rng.coin(1, 5)) {      // a date condition
+            s.lhs = rng.pick(Strs{ "DAY", "MNTH", "YEAR" }); s.lhsWg.clear(); s.rhsConst = true; s.rhsQ.clear(); s.rhsWg.clear();
+            s.rhsVal = s.lhs == "MNTH" ? rng.range(exact ? 1 : 0, exact ? 12 : 13) : s.lhs == "DAY" ? rng.range(1, 28) : rng.range(2019, 2025);
+        }
+        s.logic = (i + 1 < n) ? rng.range(1, 2) : 0;
+        cs.push_back(s);
+    }
+    if (n >= 2 && rng.coin(1, 2)) { int a = rng.range(0, n - 2), b = rng.range(a + 1, n - 1); cs[a].lp = true; cs[b].rp = true; }
+    if (!exact && rng.coin(1, 12)) { RstSpec& x = cs[rng.below(cs.size())]; switch (rng.range(0, 3)) { case 0: x.lp = !x.lp; break; case 1: x.rp = !x.rp; break; case 2: x.logic = rng.range(0, 2); break; default: if (x.lhs[0] == 'W') x.lhsWg = "'P1"; break; } }
+    for (auto& c : cs) if (c.lp && c.rp) c.rp = false;      // IACN has ONE parenthesis slot per condition (Open | Close | None)
+    return cs;
+}
+
 int main(int argc, char** argv) {
     if (argc < 5) { std::cerr << "usage: action corr|prop <seed> <tier> <outdir>\n"; return 2; }
     const std::string mode = argv[1];
@@ -657,6 +868,33 @@ int main(int argc, char** argv) {
             bool m = shmatch(pt, nm);
             sink.emit("action.glob " + vh::hex(pt) + " " + vh::hex(nm), m ? "1" : "0");
             sink.count("glob"); sink.count(m ? "glob.match" : "glob.nomatch");
+        }
+        // fifth round: format_double, its re-reading by the parser, and the restart token list
+        for (int i = 0; i < (thorough ? 24000 : 6000); ++i) {
+            const double x = restartConstant(rng);
+            const std::string a = realFmtDouble(x);
+            sink.emit("action.fmtdouble " + vh::hexF64(x), a);
+            sink.emit("action.fmtrt " + vh::hexF64(x), realFmtRt(x));
+            sink.count("fmtdouble");
+            double ip;
+            sink.count(a == "none" ? "fmtdouble.undefined" : std::modf(x, &ip) == 0.0 ? "fmtdouble.integer" : "fmtdouble.fixed");
+        }
+        for (int i = 0; i < (thorough ? 12000 : 3000); ++i) {
+            const RstSpec sp = genRst(rng);
+            const std::string a = realRstTokens(sp);
+            sink.emit(rstProto(sp), a);
+            sink.count("rsttok"); sink.count(a == "none" ? "rsttok.undefined" : sp.rhsConst ? "rsttok.constant" : "rsttok.quantity");
+        }
+        // a whole condition through the restart reader: ActionX(RstAction) = tokens() + dequote + Parser, then eval
+        for (int wi = 0; wi < (thorough ? 150 : 50); ++wi) {
+            Env env(rng);
+            for (int k = 0; k < 40; ++k) {
+                const auto cs = genRstList(rng, false);
+                const std::string a = realRstEval(cs, *env.ctx);
+                sink.emit("action.rsteval " + ctxProto(env.w) + " |" + rstEvalProto(cs), a);
+                sink.count("rsteval"); sink.count("rsteval.answer." + a.substr(0, a.find(' ')));
+                if (a.size() > 5 && a.substr(0, 4) == "ok 1" && a.substr(5) != "-") sink.count("rsteval.true_with_wells");
+            }
         }
         // several actions, redefinitions, report steps
         for (int i = 0; i < (thorough ? 6000 : 1500); ++i) {
@@ -804,6 +1042,119 @@ int main(int argc, char** argv) {
                 bool want3 = (ev(a) || ev(b)) && ev(d);
                 if (flat != want || flat2 != want2 || par != want3) log.fail("and-or-precedence", joinStrs(cat({ a, b, d })));
                 else { log.ok(); ++stats["precedence"]; }
+            }
+        }
+        // fifth round — the number grammar itself: get_type calls a token a number exactly when it is in the grammar
+        // (the empty token included; none of the operator spellings is)
+        for (int rep = 0; rep < (thorough ? 60000 : 12000); ++rep) {
+            std::string t = rep < 40 ? rng.pick(Strs{ "", "+", "-", ".", "e5", "1e", "1e+", "0x", "0x.", "0x.p1", "0x1p", "1.e1", ".e1", "nan()", "nan(", "NAN(A_1)", "nan(a-1)", "infinit", "infinityx", "+inf", "- 1", " 1", "1 ", "\t-.5E-07", "0X1.8P+2", "1d5", "1.5.2", "--1", "and", ".gt.", "(", "0xg", "0x1e5", "0x1.p", ".", "+.", "1e5.0" })
+                                     : (rep % 3 == 0 ? randomToken(rng) : randomLiteral(rng));
+            const bool isNum = std::string(typeName(Action::Parser::get_type(t))) == "number";
+            if (isNum != ownNumberGrammar(t)) log.fail("number-grammar", "token=" + vh::hex(t) + " '" + t + "' get_type=" + typeName(Action::Parser::get_type(t)));
+            else { log.ok(); ++stats[isNum ? "number_grammar.in" : "number_grammar.out"]; }
+        }
+        // fifth round — restart: a condition is stored per comparison (names as text, a constant right-hand side as
+        // the double std::stod gives, AggregateActionxData.cpp) and printed again by RstAction::Condition::tokens()
+        // (format_double).  (1) an integer-valued constant inside the int range comes back bit for bit, every other
+        // finite constant within half a unit of the sixth decimal; (2) the re-read comparison evaluates like the original
+        for (int rep = 0; rep < (thorough ? 40000 : 8000); ++rep) {
+            const double x = restartConstant(rng);
+            if (!fmtDefined(x)) { ++stats["restart_constant_undefined"]; continue; }
+            const std::string txt = format_double(x);
+            const std::string back = realNumval(txt);
+            double ip; const bool integral = std::modf(x, &ip) == 0.0;
+            if (back.substr(0, 7) != "number ") { log.fail("restart-constant", vh::hexF64(x) + " -> " + txt + " -> " + back); continue; }
+            const double y = vh::f64FromBits(std::strtoull(back.substr(7).c_str(), nullptr, 16));
+            const bool good = integral ? (y == x && std::signbit(y) == (std::signbit(x) && x != 0.0)) : std::fabs(y - x) <= 0.5e-6 + std::fabs(x) * 2.3e-16;     // half a unit of the sixth decimal + the rounding of the re-read decimal
+            if (!good) log.fail("restart-constant", vh::hexF64(x) + " -> " + txt + " -> " + back);
+            else { log.ok(); ++stats[integral ? "restart_constant_integer" : "restart_constant_fixed"]; }
+        }
+        for (int wi = 0; wi < (thorough ? 200 : 60); ++wi) {
+            Env env(rng);
+            for (int k = 0; k < 40; ++k) {
+                Strs tk;
+                const std::string f = rng.pick(Strs{ "FOPR", "FWCT", "WOPR", "WWCT", "GOPR", "WUX", "FUX" });
+                tk.push_back(f);
+                if (f[0] == 'W') tk.push_back(rng.pick(Strs{ "P1", "P2", "'P1'", "P*", "*", "OP_1", "?P*", "*L1" }));
+                if (f[0] == 'G') tk.push_back(rng.pick(Strs{ "G1", "G2", "'G1'" }));
+                tk.push_back(rng.pick(kOps));
+                const int n = rng.range(-1, 3);
+                const double q = rng.range(0, 8) * 0.25;
+                char buf[64];
+                switch (rng.range(0, 7)) {
+                case 0: std::snprintf(buf, sizeof buf, "%d", n); break;
+                case 1: std::snprintf(buf, sizeof buf, "%d.0", n); break;
+                case 2: std::snprintf(buf, sizeof buf, "%dE0", n); break;
+                case 3: std::snprintf(buf, sizeof buf, "%d0e-1", n); break;
+                case 4: std::snprintf(buf, sizeof buf, "+%d.", std::abs(n)); break;
+                case 5: std::snprintf(buf, sizeof buf, "%.2f", q); break;
+                case 6: std::snprintf(buf, sizeof buf, "%g", q); break;
+                default: { if (rng.coin()) { tk.push_back("FOPR"); } else { tk.push_back("GOPR"); tk.push_back("G2"); } buf[0] = 0; break; }
+                }
+                if (buf[0]) tk.push_back(buf);
+                auto outcome = [&](const Strs& t) -> std::string {
+                    try { Action::AST ast(t); try { return showResult(ast.eval(*env.ctx)); } catch (const std::exception&) { return "err"; } }
+                    catch (const std::exception&) { return "noparse"; }
+                };
+                try {
+                    const std::string r0 = outcome(tk);
+                    // what the writer keeps of the comparison
+                    Action::Condition cond(tk, KeywordLocation{});
+                    RstSpec sp;
+                    sp.lhs = cond.lhs.quantity; if (!cond.lhs.args.empty()) sp.lhsWg = cond.lhs.args[0];
+                    sp.cmp = cond.comparator_as_int();
+                    namespace QT = RestartIO::Helpers::VectorItems::IACN::Value;
+                    if (cond.rhs.int_type() == QT::Const) { sp.rhsConst = true; sp.rhsVal = std::stod(cond.rhs.quantity); }
+                    else { sp.rhsQ = cond.rhs.quantity; if (!cond.rhs.args.empty()) sp.rhsWg = cond.rhs.args[0]; }
+                    sp.lp = cond.open_paren(); sp.rp = cond.close_paren(); sp.logic = cond.logic_as_int();
+                    const Strs back = rstCondition(sp).tokens();
+                    const std::string r1 = outcome(back);
+                    if (r0 != r1) log.fail("restart-eval", joinStrs(tk) + "  ->  " + joinStrs(back) + " before=" + r0 + " after=" + r1);
+                    else { log.ok(); ++stats[sp.rhsConst ? "restart_eval_constant" : "restart_eval_quantity"]; if (r0 == "err") ++stats["restart_eval_err"]; }
+                } catch (const std::exception& e) { log.fail("restart-exception", joinStrs(tk) + " : " + e.what()); }
+            }
+        }
+        // the whole condition: the token list evaluated directly and the same condition stored per comparison and read
+        // back through ActionX(RstAction) agree (constants restricted to those format_double keeps exactly)
+        for (int wi = 0; wi < (thorough ? 200 : 60); ++wi) {
+            Env env(rng);
+            for (int k = 0; k < 40; ++k) {
+                const auto cs0 = genRstList(rng, true);
+                Strs all; std::vector<RstSpec> stored; bool okk = true; std::string why;
+                try {
+                    for (const auto& c : cs0) {
+                        Strs tk;
+                        if (c.lp) tk.push_back("(");
+                        tk.push_back(c.lhs); if (c.lhs[0] == 'W' || c.lhs[0] == 'G') tk.push_back(c.lhsWg);
+                        tk.push_back(Action::comparator_as_string(Action::comparator_from_int(c.cmp)));
+                        if (c.rhsConst) { char buf[64]; std::snprintf(buf, sizeof buf, rng.coin() ? "%g" : "%.3f", c.rhsVal); tk.push_back(buf); }
+                        else { tk.push_back(c.rhsQ); if (c.rhsQ[0] == 'W' || c.rhsQ[0] == 'G') tk.push_back(c.rhsWg); }
+                        if (c.rp) tk.push_back(")");
+                        if (c.logic == 1) tk.push_back("AND"); if (c.logic == 2) tk.push_back("OR");
+                        // the writer's view of this line of the ACTIONX keyword
+                        Action::Condition cond(tk, KeywordLocation{});
+                        RstSpec sp;
+                        sp.lhs = cond.lhs.quantity; if (!cond.lhs.args.empty()) sp.lhsWg = cond.lhs.args[0];
+                        sp.cmp = cond.comparator_as_int();
+                        namespace QT = RestartIO::Helpers::VectorItems::IACN::Value;
+                        if (cond.rhs.int_type() == QT::Const) { sp.rhsConst = true; sp.rhsVal = std::stod(cond.rhs.quantity); }
+                        else { sp.rhsQ = cond.rhs.quantity; if (!cond.rhs.args.empty()) sp.rhsWg = cond.rhs.args[0]; }
+                        sp.lp = cond.open_paren(); sp.rp = cond.close_paren(); sp.logic = cond.logic_as_int();
+                        stored.push_back(sp);
+                        for (auto& t : tk) all.push_back(stripQ(t));          // ActionX dequotes deck tokens too
+                    }
+                } catch (const std::exception& e) { okk = false; why = e.what(); }
+                if (!okk) { log.fail("restart-exception", joinStrs(all) + " : " + why); continue; }
+                // reported defect of the real reader (design.d/C18.restart-date-paren.*): a parenthesis on a DAY / MNTH / YEAR
+                // comparison is dropped.  Such lists are counted, not judged, until the main session decides about the fix.
+                bool dateParen = false;
+                for (const auto& sp : stored) if ((sp.lhs == "DAY" || sp.lhs == "MNTH" || sp.lhs == "YEAR") && (sp.lp || sp.rp)) dateParen = true;
+                if (dateParen) { ++stats["restart_eval_list.date_paren_not_judged"]; continue; }
+                std::string r0;
+                try { Action::AST ast(all); try { r0 = showResult(ast.eval(*env.ctx)); } catch (const std::exception&) { r0 = "err"; } } catch (const std::exception&) { r0 = "noparse"; }
+                const std::string r1 = realRstEval(stored, *env.ctx);
+                if (r0 != r1) log.fail("restart-eval-list", joinStrs(all) + " before=" + r0 + " after=" + r1);
+                else { log.ok(); ++stats["restart_eval_list"]; ++stats["restart_eval_list." + r0.substr(0, 4)]; if (cs0.size() > 1) ++stats["restart_eval_list.multi"]; }
             }
         }
         // run limits on the real ready/add_run alone
